@@ -42,6 +42,10 @@ func TestVerif(t *testing.T) {
 			w.WriteByte('\n')
 		}
 		w.Flush()
+		if os.Getenv("VERIF_RACE") == "1" {
+			// the race pass: once more without the harness's own locks (raw.go)
+			t.Run("raw", func(t *testing.T) { runHistoryRaw(t, h) })
+		}
 	}
 	switch mode {
 	case "gen":
